@@ -46,6 +46,9 @@ def run(name, ids):
     if rc != 0:
         print("patch does not apply to /repo:", o); return
     results = {}
+    import shutil, tempfile
+    keep = tempfile.mkdtemp(prefix="evidence-keep-")
+    shutil.copytree(os.path.join(ROOT, "evidence"), os.path.join(keep, "evidence"))
     try:
         for pid in ids:
             rc, o = sh(f"./check {pid} --tier quick", ROOT)
@@ -58,6 +61,10 @@ def run(name, ids):
                     results[pid]["replay_head"] = open(m.group(1)).read()[:1500]
     finally:
         sh("git -C /repo checkout -- .")
+        # the evidence files describe runs on the unchanged tree only: put them back
+        shutil.rmtree(os.path.join(ROOT, "evidence"), ignore_errors=True)
+        shutil.copytree(os.path.join(keep, "evidence"), os.path.join(ROOT, "evidence"))
+        shutil.rmtree(keep, ignore_errors=True)
     p = os.path.join(d, "detection.json")
     old = json.load(open(p)) if os.path.exists(p) else {}
     old.update(results)
